@@ -171,6 +171,13 @@ func (r *renamer) nm(env map[string]string, n string) string {
 	return n
 }
 
+func (r *renamer) nmOpt(env map[string]string, n string) string {
+	if n == "" {
+		return ""
+	}
+	return r.nm(env, n)
+}
+
 func (r *renamer) br(l string) string {
 	if n, ok := r.brs[l]; ok {
 		return n
@@ -230,11 +237,11 @@ func (r *renamer) term(t Term, env map[string]string, res map[string]bool) Term 
 		}
 		return n
 	case *Close:
-		return &Close{}
+		return &Close{X: r.nmOpt(env, x.X)}
 	case *Wait:
 		return &Wait{X: r.nm(env, x.X), K: r.term(x.K, env, res)}
 	case *Fwd:
-		return &Fwd{From: r.nm(env, x.From), T: r.ty(x.T)}
+		return &Fwd{To: r.nmOpt(env, x.To), From: r.nm(env, x.From), T: r.ty(x.T)}
 	case *Split:
 		f := union(r.forbiddenIn(x.K, env, x.X1, x.X2), res)
 		n1 := r.pick(f)
